@@ -4,6 +4,8 @@ import Verif.C01.Model
 import Verif.C01.Indexed
 import Verif.C01.Lexer
 import Verif.C01.LexSpec
+import Verif.C01.IxLexer
+import Verif.C01.LayoutSpec
 open Lean Verif.Proto Verif.Codec Verif.C01
 
 namespace Verif.C01.Driver
@@ -159,9 +161,9 @@ def handle (j : Json) : Except String Json := do
     if !simpleEncodable o m then pure (jErr "ValueError") else
     let ts := toks o m
     match parse ts with
-    | .error e => pure (Json.mkObj [("toks", jToks ts), ("text", cps (Lex.render ts)), ("dec", jErr (eName e))])
+    | .error e => pure (Json.mkObj [("toks", jToks ts), ("text", cps (Lex.render ts)), ("textind", cps (Lex.renderInd o m)), ("dec", jErr (eName e))])
     | .ok (d, rest) =>
-      pure (Json.mkObj [("toks", jToks ts), ("text", cps (Lex.render ts)), ("dec", jMRS d), ("rest", jNat rest.length),
+      pure (Json.mkObj [("toks", jToks ts), ("text", cps (Lex.render ts)), ("textind", cps (Lex.renderInd o m)), ("dec", jMRS d), ("rest", jNat rest.length),
                         ("retoks", if simpleEncodable o d then jToks (toks o d) else jErr "ValueError")])
   | "parse" => do
     let ts ← (← getArr j "toks").mapM ofTok
@@ -198,12 +200,17 @@ def handle (j : Json) : Except String Json := do
     | .error e => pure (jErr (eiName e))
     | .ok ts =>
       match Ix.parseIx semi ts with
-      | .error e => pure (Json.mkObj [("toks", jToksI ts), ("dec", jErr (eiName e))])
+      | .error e => pure (Json.mkObj [("toks", jToksI ts), ("text", cps (IxLex.renderIx ts)), ("dec", jErr (eiName e))])
       | .ok (d, rest) =>
-        pure (Json.mkObj [("toks", jToksI ts), ("dec", jMRS d), ("rest", jNat rest.length),
+        pure (Json.mkObj [("toks", jToksI ts), ("text", cps (IxLex.renderIx ts)), ("dec", jMRS d), ("rest", jNat rest.length),
                           ("retoks", match Ix.toksIx semi o d with
                                      | .ok ts2 => jToksI ts2
                                      | .error e => jErr (eiName e))])
+  | "lexix" => do
+    let s ← getCps j "s"
+    match IxLex.lexIx s with
+    | some ts => pure (jOk (jToksI ts))
+    | none => pure (jErr "MRSSyntaxError")
   | "lex" => do
     let s ← getCps j "s"
     match Lex.lex s with
